@@ -460,10 +460,19 @@ func loadHVtmx(hheaRaw, htmxRaw []byte, numGlyphs int) (*tables.Hhea, tables.Hmt
 	}
 
 	lsbCount := numGlyphs - int(hhea.NumOfLongMetrics)
+	// a table shorter than announced is used for what it holds, as Harfbuzz
+	// and FreeType do ("cap num_bearings and num_advances based on table length")
+	longCount := int(hhea.NumOfLongMetrics)
+	if max := len(htmxRaw) / 4; longCount > max {
+		longCount = max
+	}
+	if max := (len(htmxRaw) - 4*longCount) / 2; lsbCount > max {
+		lsbCount = max
+	}
 	if lsbCount < 0 { // invalid table : there is no room for additional side bearings
 		lsbCount = 0
 	}
-	hmtx, _, err := tables.ParseHmtx(htmxRaw, int(hhea.NumOfLongMetrics), lsbCount)
+	hmtx, _, err := tables.ParseHmtx(htmxRaw, longCount, lsbCount)
 	if err != nil {
 		return nil, tables.Hmtx{}, err
 	}
